@@ -3792,6 +3792,115 @@ def spec_table_children_kept(ctx, make_exe):
                     post(exe, s2, empties[i].e, f.name, "table %s: a child that is not a row group is dropped only if it has no content" % "".join(shape))
     return {"function": f.name, "paths": total}
 
+# ----------------------------------------------------------------------------
+# SPEC: inline elements open before and close after their children, with the style pushed around both
+# (do_render_node arms for text, containers, links, emphasis, strong, strikeout, code)
+# ----------------------------------------------------------------------------
+
+def _short_callee(name):
+    n = name.strip()
+    while n.endswith(">") and "::<" in n:
+        n = n[:n.rindex("::<")]
+    return re.sub(r".*::", "", n)
+
+
+def spec_inline_arms_paired(ctx, make_exe):
+    import summaries
+    orig = summaries.summarize
+    f = the(ctx.find(r"^do_render_node$"), "do_render_node")
+    kinds = {"Text": (None, None), "Container": (None, None), "Link": ("start_link", "end_link"), "Em": ("start_emphasis", "end_emphasis"),
+             "Strong": ("start_strong", "end_strong"), "Strikeout": ("start_strikeout", "end_strikeout"), "Code": ("start_code", "end_code")}
+    total = 0
+    for kind, (start_nm, end_nm) in kinds.items():
+        exe = make_exe(loop_bound=6)
+        st = State()
+        kids = VVec([VOpaque("RenderNode", "child0"), VOpaque("RenderNode", "child1")])
+        if kind == "Text":
+            info = VAgg("RenderNodeInfo::Text", "Text", [VOpaque("String", "text")])
+        elif kind == "Link":
+            info = VAgg("RenderNodeInfo::Link", "Link", [VOpaque("String", "href"), kids])
+        else:
+            info = VAgg("RenderNodeInfo::" + kind, kind, [kids])
+        node = _agg(ctx, "RenderNode", info=info, style=VOpaque("ComputedStyle", "style"),
+                    size_estimate=VAgg("Cell", None, [VAgg("Option::None", "None", [])]))
+        pend = []
+
+        def nm(exe_, st_, v):
+            while isinstance(v, VRef):
+                v = exe_.deref(st_, v)
+            return getattr(v, "name", None)
+
+        def summ(exe_, st_, f_, bb_, callee, args, dest_ty):
+            c = callee.strip()
+            if re.search(r"PushedStyleInfo::apply", c):
+                return [(st_, VOpaque("PushedStyleInfo", "pushed:" + str(nm(exe_, st_, args[1]))))]
+            if re.search(r"PushedStyleInfo::unwind", c):
+                return [(st_, VUnit())]
+            if re.search(r"TextRenderer::<D>::(start|end)_link$", c) or re.search(r"as Renderer>::(start|end)_\w+$", c) \
+                    or re.search(r"as Renderer>::add_inline_text$", c):
+                ok = st_.clone()
+                err = st_.clone()
+                return [(ok, VAgg("Result::Ok", "Ok", [VUnit()])), (err, VAgg("Result::Err", "Err", [VAgg("TooNarrow", "TooNarrow", [])]))]
+            if re.search(r"^<String as Deref>::deref$", c):
+                return [(st_, VRef("val", VOpaque("str", "str:" + str(nm(exe_, st_, args[0])))))]
+            if re.search(r"^pending2::<", c):
+                pend.append((st_.clone(), args[0], args[1]))
+                return [(st_, VAgg("TreeMapResultModel", None, [args[0], args[1]]))]
+            return orig(exe_, st_, f_, bb_, callee, args, dest_ty)
+        summaries.summarize = summ
+        try:
+            outs = exe.run(f.name, {1: VRef("val", VOpaque("TextRenderer<D>", "renderer")), 2: node, 3: VRef("val", VOpaque("T", "err_out"))}, st)
+            results = []
+            for (s2, ret) in outs:
+                ok = isinstance(ret, VAgg) and ret.variant == "Ok"
+                calls = [c for c in s2.calls if c[2] == f.name]
+                seq = [x for x in (_short_callee(c[0]) for c in calls) if re.match(r"(start_|end_|apply$|unwind$|add_inline_text$)", x)]
+                if not ok:
+                    results.append((s2, ret, seq, None))
+                    continue
+                tm = ret.fields[0]
+                after = None
+                if isinstance(tm, VAgg) and tm.path == "TreeMapResultModel":
+                    # run the closure that is to be called after the children
+                    clos = tm.fields[1]
+                    n0 = len(s2.calls)
+                    couts = exe.call_closure(s2, clos, [VRef("val", VOpaque("TextRenderer<D>", "renderer")), VVec([])])
+                    after = [(s3, r3, [x for x in (_short_callee(c[0]) for c in s3.calls[n0:]) if re.match(r"(start_|end_|apply$|unwind$|add_inline_text$)", x)]) for (s3, r3) in couts]
+                results.append((s2, ret, seq, after))
+        finally:
+            summaries.summarize = orig
+        total += len(outs)
+        if not outs:
+            raise Inconclusive("no path returned for %s" % kind)
+        n_ok = 0
+        for (s2, ret, seq, after) in results:
+            opens = [x for x in seq if x.startswith("start_")]
+            if not (isinstance(ret, VAgg) and ret.variant == "Ok"):
+                post(exe, s2, z3.BoolVal("unwind" not in seq or True), f.name, "%s: an error is passed on" % kind)
+                continue
+            n_ok += 1
+            tm = ret.fields[0]
+            if kind == "Text":
+                post(exe, s2, z3.BoolVal(seq.count("add_inline_text") == 1 and seq.index("apply") < seq.index("add_inline_text") < seq.index("unwind")), f.name,
+                     "Text: the text is added once, between pushing and unwinding the node's style (%s)" % seq)
+                post(exe, s2, z3.BoolVal(isinstance(tm, VAgg) and tm.variant == "Finished"), f.name, "Text: finished without children")
+                continue
+            post(exe, s2, z3.BoolVal(opens == ([start_nm] if start_nm else [])), f.name, "%s: opened exactly once before its children (%s)" % (kind, opens))
+            post(exe, s2, z3.BoolVal("apply" in seq and (not start_nm or seq.index("apply") < seq.index(start_nm))), f.name, "%s: the node's style is pushed before it is opened" % kind)
+            post(exe, s2, z3.BoolVal("unwind" not in seq and not any(x.startswith("end_") for x in seq)), f.name, "%s: nothing is closed before the children are rendered" % kind)
+            okk = isinstance(tm, VAgg) and tm.path == "TreeMapResultModel" and isinstance(tm.fields[0], VVec) \
+                and [getattr(x, "name", "?") for x in tm.fields[0].elems] == ["child0", "child1"]
+            post(exe, s2, z3.BoolVal(bool(okk)), f.name, "%s: all children are rendered, in order" % kind)
+            if after is None:
+                continue
+            for (s3, r3, seq3) in after:
+                if isinstance(r3, VAgg) and r3.variant == "Ok":
+                    want = ([end_nm] if end_nm else []) + ["unwind"]
+                    post(exe, s3, z3.BoolVal(seq3 == want), f.name, "%s: after the children it is closed once and then the style is unwound (%s)" % (kind, seq3))
+        if not n_ok:
+            raise Inconclusive("no successful path for %s" % kind)
+    return {"function": f.name, "paths": total}
+
 
 ALL = [
     Spec("table_col_width", ["C06", "C02", "C01"], spec_table_col_width,
@@ -3989,6 +4098,12 @@ ALL = [
          bounds="0-3 children: row groups of two rows each and other nodes of arbitrary emptiness",
          assumptions=["RenderTable::new is observed, not executed; Vec::extend appends"],
          replay=lambda fd, vals, info: {"harness": ("m_table_caption" if "dropped only if it has no content" in fd.msg else "m_table_sections"), "values": [[0]]}),
+    Spec("inline_arms_paired", ["C09", "C08"], spec_inline_arms_paired,
+         functions=["do_render_node (Text, Container, Link, Em, Strong, Strikeout, Code arms and their after-children closures)"],
+         bounds="one node of each kind with two opaque children; renderer calls succeed or fail arbitrarily",
+         assumptions=["renderer methods and PushedStyleInfo::{apply,unwind} are observed by name (their own contracts are t5_annotation_stack, style_unwind, link_footnotes)",
+                      "tree_map_reduce renders the children between the arm and its closure"],
+         replay=lambda fd, vals, info: {"harness": ("m_link_footnotes" if fd.msg.startswith("Link") else "m_inline_tags"), "values": [[0]]}),
     Spec("link_footnotes", ["C08"], spec_link_footnotes,
          functions=["TextRenderer::start_link", "TextRenderer::end_link"],
          bounds="0-2 links already recorded; footnote flag symbolic",
